@@ -123,6 +123,27 @@ def sc_orphan(ident, n, nlater, latch_delay, hold):
                           latch_at=latch_delay, barrier=False, orphan=True))
 
 
+def sc_double(ident, n_lock, nsched, hold, fail_first):
+    """C05 (c): a forced double launch.  Every experiment is held (by the line tracer) at the line where aio_start
+    takes the job lock, i.e. after all of them found neither marker nor pid file; they are then let go one after
+    the other, each when the previous one has written its pid file: nsched job processes for one job"""
+    funcs = ["aio_submit"] + KILLFUNCS
+    runs, script = [], []
+    files = {"hold.1": str(hold), "latch.all": ""}
+    if fail_first:
+        files["fail.1"] = "1"
+    for k in range(nsched):
+        runs.append(dict(sid=f"S{k}", slot=k, run=0, xpname=f"x{k}", pause=dict(n=n_lock, funcs=funcs, until=f"go{k}")))
+        script.append(dict(when={"t": 0}, do={"start": [f"S{k}", 0]}))
+    allp = {"all": [{"log": rf"^S{k} 0 PAUSE "} for k in range(nsched)]}
+    script.append(dict(when=allp, do={"touch": "go0"}))
+    for k in range(1, nsched):
+        script.append(dict(when={"all": [allp, {"log": rf"^S{k - 1} 0 R aio_run 1 "}]}, do={"touch": f"go{k}"}))
+    return dict(id=ident, kind="one", tags=[1], timeout=50, files=files, runs=runs, script=script,
+                meta=dict(family="compete", nsched=nsched, delays=[], hold=hold, fail_first=fail_first, kill=None,
+                          latch_at=None, barrier=False, double=True))
+
+
 def sc_done_marker(ident, pre, nsched, concurrent, real_first):
     """C05 (b): the success marker is there (made by hand, or by a real first experiment); later
     experiments submit the job"""
